@@ -303,28 +303,25 @@ def run(ctx):
         ctx.check(args_ok, "FORM", f"{tv.qualname} / FORM / centre fitted over all points with the configured method", ctx.where(tv, e.node),
                   "calculate_circle_center(self.vertices, method=fit_method)",
                   f"circle centre computed as calculate_circle_center({', '.join(T.show(a) for a in e.args)}, {dict((k, T.show(v)) for k, v in e.kw)})")
-    short = [r for r in st.returns if T.b_not(T.ige(nverts, 3)) in r[0]]
     chord = T.call(f"{BE}.get_straight_edge_versor_from_vid", (SELF, vidp))
-    ok = len(short) == 1 and short[0][1] in (T.call("numpy.array", (chord,)), chord)
+    whole = st.ret()
+    short_val = rules.assume(whole, {T.b_not(T.ige(nverts, 3))})
+    ok = short_val in (T.call("numpy.array", (chord,)), chord)
     ctx.check(ok, "FORM", f"{tv.qualname} / FORM / two-point interface -> chord from the junction", ctx.where(tv),
               "returns get_straight_edge_versor_from_vid(vid) for < 3 points",
               "for fewer than three points the vector is not the straight segment from the junction")
 
     ctx.clause("the coefficient pair is the tangent of the interface's circle at the junction: J*(v - c)")
-    longr = [r for r in st.returns if T.ige(nverts, 3) in r[0]]
-    if not longr and st.returns:
-        longr = [st.returns[-1]]
-    if len(longr) != 1:
-        raise AnalysisError(f"get_vector_from_vertex: expected one return for >= 3 points, found {len(longr)}")
-    val = longr[0][1]
+    # the value for three or more points, however the returns are arranged (one return of a choice, or early returns)
+    val = rules.assume(whole, {T.ige(nverts, 3)})
     V = T.call(f"{BE}.get_vertex_object_by_id", (SELF, vidp))
     C = T.call(CCC, (T.attr(SELF, "vertices"),), (("method", fitp),))
     raw_spec = T.arr((T.neg(T.sub(T.attr(V, "y"), T.idx(C, T.num(1)))), T.sub(T.attr(V, "x"), T.idx(C, T.num(0)))))
     where = ctx.where(tv)
     if val[0] == "phi":
         cond, corrected, raw = val[1], val[2], val[3]
-        if corrected == raw_spec or (raw[0] != "arr" and corrected[0] == "arr"):
-            pass
+        if corrected == raw_spec:                      # the choice written the other way round (`if no correction needed: return vector`)
+            cond, corrected, raw = T.b_not(cond), raw, corrected
     else:
         cond, corrected, raw = None, None, val
     rules.decide_equal(ctx, "FORM", f"{tv.qualname} / FORM / tangent = (-(v.y - c.y), v.x - c.x)", where, raw, raw_spec, "vector before orientation")
@@ -332,15 +329,7 @@ def run(ctx):
     ctx.clause("the orientation is applied to the vector as a whole (rotation covariance)")
     if corrected is None:
         raise AnalysisError(f"{where}: no orientation step found in get_vector_from_vertex - re-bind the anchor")
-    cands = [e.value for e in st.events if e.kind == "assign"] + [T.num(-1)]
-    K = None
-    for k in cands:
-        try:
-            if T.mul(raw, k) == corrected:
-                K = k
-                break
-        except Exception:
-            pass
+    K = rules.extra_factor(raw, corrected, [e.value for e in st.events if e.kind == "assign"])
     if K is None:
         raise AnalysisError(f"{where}: orientation step not understood: {T.show(T.alpha(corrected))[:200]}")
     if is_vector(repo, K):
@@ -425,7 +414,7 @@ def run(ctx):
                 ok, bad = False, "taubinSVD reached with fewer than three points"
     ctx.check(ok, "FORM", f"{cf.qualname} / FORM / fit receives x and y of every vertex, in that order", ctx.where(cf),
               "xs = [v.x for v in vertices], ys = [v.y for v in vertices] handed to the fit", f"circle fit called as {bad}")
-    ctx.count("FORM", "circle-fit call sites in calculate_circle_center", len(fits), 3)
+    ctx.count("FORM", "circle-fit call sites in calculate_circle_center", len(fits), 2)
     # the returned pair, branch by branch, is (F[0], F[1]) of one and the same fit F (or the two coordinate means of the fallback)
     ret = scf.ret()
     bad_pairs = []
